@@ -60,7 +60,10 @@ def term(t):
     if k == T.BinaryOperation:
         return ('bin', BIN[int(t.operator_type)], term(t.left), term(t.right))
     if k == T.UnaryOperation:
-        return ('un', UN[int(t.operator_type)], term(t.argument))
+        arg = term(t.argument)
+        if UN[int(t.operator_type)] == '-' and arg[0] == 'num':
+            return ('num', -arg[1])        # `-1` is the number, however it was written
+        return ('un', UN[int(t.operator_type)], arg)
     if k == T.Interval:
         return ('interval', term(t.left), term(t.right))
     if k == T.Pool:
